@@ -5,7 +5,7 @@ import sys, os, subprocess, shutil
 props, rel, old, new = sys.argv[1:5]
 extra = sys.argv[5:]
 dst = '/tmp/mut_repo'
-subprocess.run(['rsync', '-a', '--delete', '--exclude', 'target', '--exclude', '.git', '/repo/', dst + '/'], check=True)
+subprocess.run(['rsync', '-rlpgoD', '--checksum', '--delete', '--exclude', 'target', '--exclude', '.git', '/repo/', dst + '/'], check=True)
 p = os.path.join(dst, rel)
 s = open(p).read()
 if s.count(old) != 1:
